@@ -19,7 +19,8 @@ LEVEL_TEXT = ("complete sweep of failure kind {ERROR(code), unsolicited RSTACK(c
               "injection point {before, after} every wire event of five scripted workloads (idle, one command in flight, one in flight + three queued, "
               "reset in progress, start-up reset on a socket path), each event in its own loop iteration; seeded runs inject at timer deadlines with "
               "batched/reordered same-instant callbacks")
-COMPONENTS = e3.COMPONENTS
+COMPONENTS = {"real": e3.COMPONENTS["real"] + ["threaded scenario: bellows.thread.EventLoopThread + ThreadsafeProxy (uart.connect(use_thread=True)) on two real threads"],
+              "simulated": e3.COMPONENTS["simulated"] + ["threaded scenario: both loops and the thread schedule (dst.threads)"]}
 RULE = ("sweep: (workload, failure kind/code, injection instant) for every instant just before/after a wire event of the workload's fault-free run; random: "
         "workload, kind and instant (uniform or exactly at a pending timer deadline) drawn from the tape with the scheduler free to batch/reorder. "
         "Every injection is a fault, so every run is non-trivial; distinct = distinct (workload, kind, code, instant) cells.")
@@ -29,7 +30,7 @@ ASSUMPTIONS = [
     "protocol callbacks may raise in these situations (e.g. ACK for a DATA frame that follows an ERROR frame in the same read: transport already closed); the transport contract turns that into a harmless second connection_lost; counted as a probe",
     "bound for calls in progress: 10 s command timeout + 16 s (five ACK timeouts of at most 3.2 s) + 0.5 s slack after the injection",
 ]
-PROBES = ["kind.error", "kind.rstack", "kind.silent", "kind.lost", "kind.eof", "kind.close", "workload.idle", "workload.one", "workload.queued",
+PROBES = ["threaded.runs", "threaded.preempted_in_proxy", "kind.error", "kind.rstack", "kind.silent", "kind.lost", "kind.eof", "kind.close", "workload.idle", "workload.one", "workload.queued",
           "workload.reset", "workload.startup", "reported", "reported_twice", "silent_detected_by_retries", "silent_during_reset_timeout",
           "data_received_raised", "inject_at_timer_deadline", "calls_in_progress_at_injection", "sched.batch", "sched.reorder", "sched.join"]
 
@@ -65,8 +66,8 @@ def plan(tier):
     return {
         "sweeps": sweeps,
         "exhaustive": f"failure kind x code x {npts} injection instants (just before/after every wire event of the 5 scripted workloads), each event in its own loop iteration",
-        "random": [("random", {}, 1)],
-        "runs": 1500 if tier == "quick" else None,
+        "random": [("random", {}, 3), ("threaded", {}, 1)],
+        "runs": 1600 if tier == "quick" else None,
         "budget_s": 60 if tier == "quick" else 900,
         "batch": 25,
         "sweep_batch": 40,
@@ -74,6 +75,8 @@ def plan(tier):
 
 
 def run(scenario, params, tape, detail=False):
+    if scenario == "threaded":
+        return run_threaded_one(params, tape, detail)
     if scenario == "inject":
         return run_one(params["workload"], params["kind"], params["code"], params["at"], tape, params.get("sched", True), detail)
     w = WORKLOADS[tape.draw(len(WORKLOADS), "workload")]
@@ -334,4 +337,227 @@ def run_one(workload, kind, code, at, tape, sched, detail, dry=False):
                       "calls": [(c["name"], c["outcome"] and (c["outcome"][0], type(c["outcome"][1]).__name__ if len(c["outcome"]) > 1 else None), c["t_end"]) for c in calls]}}
     if detail:
         res["trace"] = [repr(e) for e in rig.log[:400]]
+    return res
+
+
+def run_threaded_one(params, tape, detail=False):
+    """The same failures with the stack split over two threads (uart.connect(use_thread=True)), thread schedule drawn from the tape."""
+    import threading
+
+    from ..e3t import ThreadedStackRig
+
+    workload = params.get("workload") or ("idle", "one", "queued", "reset")[tape.draw(4, "workload")]
+    kind = params.get("kind") or KINDS[tape.draw(len(KINDS), "kind")]
+    code = None
+    if kind == "error":
+        code = ERR_CODES[tape.draw(len(ERR_CODES), "code")]
+    elif kind == "rstack":
+        code = RST_CODES[tape.draw(len(RST_CODES), "code")]
+    rig = ThreadedStackRig(tape, version=(4, 8, 13)[tape.draw(3, "V")])
+    viol, probes = [], {"threaded.runs": 1}
+
+    def probe(n, k=1):
+        probes[n] = probes.get(n, 0) + k
+
+    reports, calls = [], []
+    st = {"t_inj": None}
+    delays = {}
+    where = []  # (what, thread ident)
+
+    def on_bind(r):
+        def deliver(req, payload):
+            req.nrsp += 1
+            r.ncp.emit(payload, delays.get(req.name, 0.0), "rsp", req.seq)
+
+        r.ncp.deliver = deliver
+
+    rig.on_bind = on_bind
+
+    async def main(rig, sched, loop):
+        main_ident = threading.get_ident()
+        st["main_ident"] = main_ident
+        ez = await rig.connect()
+        st["worker_ident"] = sched.ident.get("W1")
+        wl = rig.loop  # the worker's loop
+        await ez.startup_reset()
+        for nm in ("frame_received", "enter_failed_state", "connection_lost"):
+            orig = getattr(ez, nm)
+
+            def w(*a, _o=orig, _n=nm, **k):
+                where.append(("ezsp." + _n, threading.get_ident()))
+                return _o(*a, **k)
+
+            setattr(ez, nm, w)
+        gw = rig.gw
+        for nm in ("data_received", "connection_lost"):
+            orig = getattr(gw, nm)
+
+            def w2(*a, _o=orig, _n=nm, **k):
+                where.append(("gateway." + _n, threading.get_ident()))
+                return _o(*a, **k)
+
+            setattr(gw, nm, w2)
+
+        def cb(name, args):
+            if name == "_reset_controller_application":
+                reports.append((loop.time(), args, len(rig.host_writes), ez.is_ezsp_running, threading.get_ident()))
+
+        ez.add_callback(cb)
+        await asyncio.sleep(0.1)
+        t0 = loop.time()
+
+        def tracked(name, coro):
+            c = {"name": name, "t0": loop.time(), "t_end": None, "outcome": None}
+
+            async def wrap():
+                try:
+                    c["outcome"] = ("ok", await coro)
+                except asyncio.CancelledError:
+                    c["outcome"] = ("cancelled",)
+                    raise
+                except BaseException as e:  # noqa: BLE001
+                    c["outcome"] = ("raised", e)
+                finally:
+                    c["t_end"] = loop.time()
+
+            c["task"] = loop.create_task(wrap(), name=name)
+            calls.append(c)
+            return c
+
+        def inject():
+            st["t_inj"] = wl.time()
+            st["in_progress"] = [c for c in calls if c["t_end"] is None]
+            nash = rig.ncp_ash
+            if kind == "error":
+                nash.force_error(code)
+            elif kind == "rstack":
+                nash.do_reset(code)
+            elif kind == "silent":
+                nash.silent = True
+                nash._cancel_ack_timer()
+            elif kind == "lost":
+                rig.transport.inject_lost(ConnectionResetError("simulated loss"))
+            elif kind == "eof":
+                rig.transport.inject_eof()
+
+        at = t0 + (0.0005, 0.01, 0.1, 0.3, 0.6, 1.0)[tape.draw(6, "at")]
+        if kind == "close":
+            loop.call_at(at, lambda: (st.__setitem__("t_inj", loop.time()), st.__setitem__("in_progress", [c for c in calls if c["t_end"] is None]), ez.close()))
+        else:
+            wl.call_soon_threadsafe(lambda: wl.external(at, inject))
+        if workload == "one":
+            delays["getValue"] = 0.5
+            tracked("getValue", ez.getValue(valueId=t.EzspValueId.VALUE_FREE_BUFFERS))
+        elif workload == "queued":
+            delays.update({"getEui64": 0.5, "setSourceRoute": 0.05, "getValue": 0.05, "nop": 0.05})
+            tracked("getEui64", ez.getEui64())
+            await asyncio.sleep(0.01)
+            tracked("setSourceRoute", ez.setSourceRoute(destination=0x1234, relayList=[]))
+            tracked("getValue", ez.getValue(valueId=t.EzspValueId.VALUE_FREE_BUFFERS))
+            tracked("nop", ez.nop())
+        elif workload == "reset":
+            rig.ncp_ash.rst_delay = 0.3
+
+            async def reset_then_version():
+                await ez.reset()
+                await ez.version()
+
+            tracked("reset", reset_then_version())
+        await asyncio.sleep(at - loop.time() + 0.2)
+        st["probe_t"] = loop.time()
+        st["probe_writes"] = len(rig.host_writes)
+        pc = tracked("probe-nop", ez.nop())
+        await asyncio.sleep(45.0)
+        st["late_writes"] = len(rig.host_writes)
+        pc2 = tracked("late-nop", ez.nop())
+        await asyncio.sleep(30.0)
+        st["late_outcome"] = pc2["outcome"]
+        st["late_writes_after"] = len(rig.host_writes)
+        # where is every call that is still pending blocked?
+        hung = {}
+        for c in calls:
+            if c["t_end"] is None:
+                co, names = c["task"].get_coro(), []
+                while co is not None and hasattr(co, "cr_code"):
+                    names.append(co.cr_code.co_name)
+                    co = co.cr_await
+                hung[c["name"]] = names
+        st["hung"] = hung
+        st["worker_closed"] = wl.is_closed() or not wl.is_running()
+
+    outcome, val = rig.run_threaded(main)
+    sched = rig.sched
+    tag = f"threaded {workload}/{kind}" + (f"({code})" if code is not None else "") + (f" at t={st['t_inj']:.4f}" if st["t_inj"] is not None else "")
+    probe("kind." + kind)
+    probe("workload." + workload)
+    if sched.preemptions:
+        probe("threaded.preempted_in_proxy", sched.preemptions)
+    if outcome != "done":
+        viol.append(("C10.bounded", "sim-" + outcome, f"{tag}: simulation ended with {outcome}: {val!r}"))
+    elif st["t_inj"] is not None:
+        t_inj = st["t_inj"]
+        rep_after = [r for r in reports if r[0] >= t_inj - 1e-9]
+        for (what, ident) in where:
+            want = st["main_ident"] if what.startswith("ezsp.") else st["worker_ident"]
+            if ident != want:
+                viol.append(("C10.report", "wrong-thread", f"{tag}: {what} ran on the {'worker' if ident == st['worker_ident'] else 'main'} thread"))
+                break
+        if kind == "close":
+            if rep_after:
+                viol.append(("C10.quiet", "report-after-close", f"{tag}: a deliberate close() produced a controller-reset request"))
+        else:
+            detected = kind in ("error", "rstack", "lost", "eof")
+            if kind == "silent":
+                cnt = {}
+                for (tt, frm, retx, payload) in rig.mon.data_tx:
+                    if tt >= t_inj:
+                        cnt[(frm, payload)] = cnt.get((frm, payload), 0) + 1
+                detected = any(v >= 5 for v in cnt.values())
+                if not detected:
+                    rc = [c for c in calls if c["name"] == "reset" and c["outcome"] and c["outcome"][0] == "raised" and isinstance(c["outcome"][1], TimeoutError)]
+                    if not rc and not rep_after:
+                        viol.append(("C10.report", "silent-undetected", f"{tag}: NCP went silent; nothing exhausted its retries, no reset timed out, nothing reported"))
+            pre_closed = bool(reports and reports[0][0] < t_inj)
+            if detected and not rep_after and not pre_closed:
+                viol.append(("C10.report", "not-reported", f"{tag}: the application never received a controller-reset request (main-loop exceptions {getattr(rig.main_loop, 'exceptions', [])[:2]}, worker-loop exceptions {getattr(rig.loop, 'exceptions', [])[:2]})"))
+            if rep_after:
+                probe("reported")
+                tr, _a, nw, running, ident = rep_after[0]
+                if ident != st["main_ident"]:
+                    viol.append(("C10.report", "wrong-thread", f"{tag}: the controller-reset request was delivered on the worker thread"))
+                if running:
+                    viol.append(("C10.stopped", "running-at-report", f"{tag}: EZSP still marked running when the controller-reset request was delivered"))
+                oc = st.get("late_outcome")
+                if oc is None or oc[0] != "raised" or not isinstance(oc[1], EzspError):
+                    viol.append(("C10.stopped", "command-after-report", f"{tag}: a command issued after the report did not raise EzspError: {oc!r}"))
+                if st.get("late_writes_after") != st.get("late_writes"):
+                    viol.append(("C10.stopped", "write-by-command-after-report", f"{tag}: a command issued after the report wrote to the port"))
+        hung = st.get("hung", {})
+        # F9 (DESIGN.md section 6): a command whose send was handed to the worker loop while force_stop() was shutting it down is never
+        # completed (the worker loop stopped before running it); everything queued behind it waits on the semaphore forever
+        orphaned = [n for n, names in hung.items() if names and names[-1] == "command"]
+        behind = [n for n, names in hung.items() if names and names[-1] == "acquire"]
+        f9 = bool(orphaned) and st.get("worker_closed") and len(orphaned) + len(behind) == len(hung)
+        if f9:
+            viol.append(("C10.bounded", "threaded-send-orphaned-by-force-stop",
+                         f"{tag}: use_thread=True: command(s) {orphaned} handed their frame to the worker loop while force_stop() was stopping it; the send never completes "
+                         f"and never times out, {behind} wait behind it for the command slot forever"))
+        else:
+            for c in st.get("in_progress", []):
+                if c["t_end"] is None:
+                    viol.append(("C10.bounded", "hang", f"{tag}: call {c['name']} in progress at the injection never ended (blocked in {hung.get(c['name'])})"))
+                elif c["t_end"] > t_inj + BOUND and kind != "close":
+                    viol.append(("C10.bounded", "late", f"{tag}: call {c['name']} in progress at the injection ended only {c['t_end'] - t_inj:.3f}s later"))
+            for c in calls:
+                if c["name"] in ("probe-nop", "late-nop") and c["t_end"] is None:
+                    viol.append(("C10.bounded", "probe-hang", f"{tag}: command {c['name']} issued after the injection never ended (blocked in {hung.get(c['name'])})"))
+    sstr = "".join(n[0] for n in sched.schedule)
+    sig = hashlib.blake2b(repr(("threaded", workload, kind, code, st["t_inj"] and round(st["t_inj"], 4), sstr[:400])).encode(), digest_size=8).digest()
+    res = {"viol": viol, "faults": {"inject." + kind: 1}, "probes": probes, "vt": sched.vt, "iters": sum(lp.iters for lp in sched.loops.values()), "sig": sig, "nontrivial": True,
+           "digest": hashlib.sha256(repr((rig.log, sstr, [(c["name"], c["t_end"], c["outcome"] and c["outcome"][0]) for c in calls])).encode()).hexdigest()[:16],
+           "sample": {"mode": "threaded", "workload": workload, "kind": kind, "code": code, "t_inject": st["t_inj"], "reports": len(reports), "thread_switches": sched.switches,
+                      "preemptions_in_proxy": sched.preemptions, "schedule_head": sstr[:60],
+                      "calls": [(c["name"], c["outcome"] and c["outcome"][0], c["t_end"]) for c in calls]}}
+    if detail:
+        res["trace"] = [f"schedule {sstr[:1500]}"] + [repr(e) for e in rig.log[:300]]
     return res
